@@ -50,7 +50,7 @@ Inductive pkind :=
 | PK_ListSyntax | PK_InvalidIndex | PK_AssignTarget | PK_AssignOp | PK_AssignValue
 | PK_InvalidCall | PK_InvalidPipe | PK_InvalidIn | PK_ExpectedIn | PK_InvalidNotIn
 | PK_RangeBrace | PK_InvalidRange | PK_SetSyntax | PK_InvalidAttr | PK_ExpectedIdentAfter
-| PK_SendChannel | PK_SendValue | PK_InvalidReceive | PK_InvalidReturn | PK_InvalidCase.
+| PK_SendChannel | PK_SendValue | PK_InvalidReceive | PK_InvalidReturn | PK_InvalidCase | PK_InvalidElseIf.
 
 Inductive perr := PSyntax (e : lexerr) | PParse (k : pkind).
 Record perror := { pe_kind : perr; pe_line : nat; pe_col : nat }.
@@ -455,10 +455,11 @@ Section Step.
                 do i <- peek_is IF;
                 if i then
                   do _ <- next_token;
+                  do nt <- cur_tok;
                   do nested <- parse_if f;
                   match nested with
                   | Some nif => ret (Some (NIf cond cns (Some [nif])))
-                  | None => ret (Some (NIf cond cns (Some [NNil])))   (* block holding a nil node; an error is set *)
+                  | None => tok_err nt PK_InvalidElseIf ;; ret None
                   end
                 else
                   do ok2 <- expect_peek LBRACE;
